@@ -502,3 +502,112 @@ def sb_grow(ex, g, fid, args):
     if fid.endswith("Reset"):
         _sb_buf(args[0])[1] = Slice(None, 0, 0, 0)
     return None
+
+
+# ------------------------------------------------------------------ p2pke.Channel as a contract (only for the p2pkeswarm glue, //verif: stubs=channel)
+from .intercepts import exact_if
+
+CH = "go.brendoncarroll.net/p2p/p/p2pke."
+
+
+def chan_state(ex, p):
+    key = id(p.cont)
+    st = ex.chans.get(key)
+    if st is None:
+        st = {"keep": p, "key": None, "cfg": None, "sent": 0}
+        ex.chans[key] = st
+    return st
+
+
+@exact_if("channel", CH + "NewChannel")
+def ch_new(ex, g, fid, args):
+    rt = ex.types[ex.funcs[fid]["sig"]]["results"]
+    et = ex.types[rt[0]]["elem"]
+    p = Ptr([ex.zero(et)], 0)
+    st = chan_state(ex, p)
+    st["cfg"] = args[0]
+    ex.chan_order.append(p)
+    return p
+
+
+@exact_if("channel", "(*" + CH + "Channel).Deliver")
+def ch_deliver(ex, g, fid, args):
+    k = ex.choose([True, True, True])
+    if k == 0:
+        return Tup([Slice(None, 0, 0, 0), None])
+    if k == 1:
+        return Tup([Slice(None, 0, 0, 0), mkerr(ex, gostr("channel: fatal"))])
+    return Tup([hbytes(ex, 1, "cd"), None])
+
+
+@exact_if("channel", "(*" + CH + "Channel).RemoteKey")
+def ch_remotekey(ex, g, fid, args):
+    st = chan_state(ex, args[0])
+    if st["key"] is None:
+        st["key"] = ex.havoc(8, "rk")
+    rt = ex.types[ex.funcs[fid]["sig"]]["results"]
+    key = ex.zero(rt[0])
+    algo = harness_global(ex, ".vAlgo")
+    key[0] = algo if algo is not None else key[0]
+    key[1] = Slice([st["key"]], 0, 1, 1)
+    return key
+
+
+@exact_if("channel", "(*" + CH + "Channel).WaitReady")
+def ch_waitready(ex, g, fid, args):
+    # the caller's context eventually expires: after 3 successful waits every further wait fails
+    ex.chan_waits = getattr(ex, "chan_waits", 0) + 1
+    if ex.chan_waits <= 3 and fork_bool(ex):
+        return None
+    return mkerr(ex, gostr("channel: not ready"))
+
+
+@exact_if("channel", "(*" + CH + "Channel).Send")
+def ch_send(ex, g, fid, args):
+    st = chan_state(ex, args[0])
+    st["sent"] += 1
+    ex.events.append(("chan-send", id(args[0].cont)))
+    return None
+
+
+@exact_if("channel", "(*" + CH + "Channel).Close", "(*" + CH + "Channel).LastReceived", "(*" + CH + "Channel).LastSent")
+def ch_misc(ex, g, fid, args):
+    rt = ex.types[ex.funcs[fid]["sig"]]["results"]
+    return ex.zero(rt[0]) if rt else None
+
+
+@vfunc("vChanSends")
+def v_chansends(ex, g, fid, args):
+    """number of Send calls on the stubbed channel"""
+    return chan_state(ex, args[0])["sent"]
+
+
+@vfunc("vChanAccept")
+def v_chanaccept(ex, g, fid, args):
+    """calls the AcceptKey predicate the glue configured for the stubbed channel with key byte k"""
+    st = chan_state(ex, args[0])
+    cfg = st["cfg"]
+    t = ex.types[ex.funcs[CH + "NewChannel"]["params"][0]]
+    fi = [n for n, f in enumerate(t["fields"]) if f["name"] == "AcceptKey"][0]
+    clo = cfg[fi]
+    kt = None
+    for n, f in enumerate(t["fields"]):
+        if f["name"] == "PrivateKey":
+            kt = f["type"]
+    pub = ex.zero(kt)   # PrivateKey and PublicKey share the layout {Algorithm, Data}
+    algo = harness_global(ex, ".vAlgo")
+    pub[0] = algo if algo is not None else pub[0]
+    pub[1] = Slice([args[1]], 0, 1, 1)
+    return CallReq(clo, [Ptr([pub], 0)], lambda r: r)
+
+
+_old_install2 = Executor.install_env
+
+
+def _install2(ex):
+    _old_install2(ex)
+    ex.chans = {}
+    ex.chan_order = []
+
+
+Executor.install_env = _install2
